@@ -1,12 +1,34 @@
-// C11 scenario harness (thorough tier): runs the REAL tbox::main::Main() of
-// modules/main/run_in_frontend.cpp with an Apps tree of probe modules described by the op
-// file named in $C11_SCENARIO (same `new`/`add` lines as harness.cpp, last line
-// `main <ctxInit> <ctxStart> <root>`: module <root> stands for the Apps root that Main() creates).
-// Prints one line `P ret=1 tr=<user hooks that ran during Main()> st=-`.
+// C11 scenario harness: runs the REAL process-level entry points of modules/main with an Apps tree of
+// probe modules described by the op file named in $C11_SCENARIO (same `new`/`add`/`set` lines as
+// harness.cpp), one process per scenario:
+//
+//   main <ctxInit> <ctxStart> <root>            tbox::main::Main() of run_in_frontend.cpp (last line);
+//                                               an earlier `raise <i|s|t|c> <id>` makes that hook of module <id>
+//                                               raise(SIGTERM) when it is entered (a stop signal arriving
+//                                               at that moment)
+//   bstart <args> <pid> <ctxInit> <ctxStart> <root>   tbox::main::Start() of run_in_backend.cpp
+//   bstop <root>                                      tbox::main::Stop()
+//   arg <key=json>                                    configuration passed as `-s <key=json>` to the entry points that follow
+//                                                     (what the context uses: telnetd / tcp_rpc endpoints that can or cannot be
+//                                                     bound, …): nothing the hooks may depend on
+//
+// Module <root> stands for the Apps root the code creates itself (a base Module("")); RegisterApps()
+// rebuilds the tree below it from the `new`/`add` lines — with the flags of the `set` lines seen so far —
+// every time the code calls it (once per Start()).
+// Faults: <args>=0 passes `-n` (Args::parse answers false), <pid>=0 configures a pid file that cannot be
+// created, <ctxInit>=0 a thread_pool.min that is not a number (ContextImp::initialize answers false),
+// <ctxStart>=0 makes ContextImp::start() answer false: that function is linked through
+// `-Wl,--wrap` (it cannot fail by itself: its body ends in `return true` whatever telnetd/tcp_rpc do).
+//
+// Output: every hook is written at once as `E <ev>` (unbuffered: a killed process keeps what it wrote);
+// `P ret=1 tr=… st=-` after Main() returned; `P bret=<r> tr=…` and `M runtime=<error signal handlers
+// installed>` after each Start()/Stop().
 #include "vh.h"
 #include <csignal>
 #include <fstream>
 #include <map>
+#include <mutex>
+#include <unistd.h>
 #include <tbox/base/json.hpp>
 #include <tbox/main/main.h>
 #include <tbox/main/module.h>
@@ -15,45 +37,76 @@ using tbox::Json;
 using tbox::main::Module;
 
 namespace {
+std::mutex g_mx;                       // hooks run on the loop thread (backend) and on the caller's thread
 std::vector<std::string> g_tr;
 bool g_bad = false;
+bool g_ctx_start_fail = false;
+int g_raise_hook = -1; uint64_t g_raise_id = 0; bool g_raised = false;
+std::vector<std::vector<std::string>> g_tree;     // new / add / set lines seen so far
+std::vector<std::string> g_extra_args;            // `arg <key=json>` lines: passed as `-s <key=json>` to every later entry point
+uint64_t g_root = 0;
+
+void emit(const std::string &e) {
+    { std::lock_guard<std::mutex> lk(g_mx); g_tr.push_back(e); }
+    std::string l = "E " + e + "\n";
+    if (::write(1, l.data(), l.size()) < 0) {}
+}
+void out(const std::string &s) { std::cout.flush(); if (::write(1, s.data(), s.size()) < 0) {} }
 
 struct Probe : public Module {
     uint64_t id; bool init_ok, start_ok;
     Probe(uint64_t id_, bool named, bool i, bool s, tbox::main::Context &ctx)
         : Module(named ? "m" + std::to_string(id_) : std::string(), ctx), id(id_), init_ok(i), start_ok(s) {}
+    void sig(int h) { if (h == g_raise_hook && id == g_raise_id && !g_raised) { g_raised = true; raise(SIGTERM); } }
   protected:
-    bool onInit(const Json &) override { g_tr.push_back("i" + std::to_string(id) + (init_ok ? "+" : "-")); return init_ok; }
-    bool onStart() override { g_tr.push_back("s" + std::to_string(id) + (start_ok ? "+" : "-")); return start_ok; }
-    void onStop() override { g_tr.push_back("t" + std::to_string(id)); }
-    void onCleanup() override { g_tr.push_back("c" + std::to_string(id)); }
+    bool onInit(const Json &) override { sig(0); emit("i" + std::to_string(id) + (init_ok ? "+" : "-")); return init_ok; }
+    bool onStart() override { sig(1); emit("s" + std::to_string(id) + (start_ok ? "+" : "-")); return start_ok; }
+    void onStop() override { sig(2); emit("t" + std::to_string(id)); }
+    void onCleanup() override { sig(3); emit("c" + std::to_string(id)); }
 };
+
+std::string take_trace() {
+    std::lock_guard<std::mutex> lk(g_mx);
+    std::string s; for (auto &e : g_tr) { if (!s.empty()) s += ","; s += e; }
+    g_tr.clear();
+    return s.empty() ? "-" : s;
+}
+
+struct sigaction g_base_segv;
+bool errsig_installed() {
+    struct sigaction sa; sigaction(SIGSEGV, nullptr, &sa);
+    return sa.sa_sigaction != g_base_segv.sa_sigaction || sa.sa_flags != g_base_segv.sa_flags;
+}
+}
+
+extern "C" bool __real__ZN4tbox4main10ContextImp5startEv(void *self);
+extern "C" bool __wrap__ZN4tbox4main10ContextImp5startEv(void *self) {
+    if (g_ctx_start_fail) return false;
+    return __real__ZN4tbox4main10ContextImp5startEv(self);
 }
 
 namespace tbox { namespace main {
 void RegisterApps(Module &apps, Context &ctx) {
-    const char *path = getenv("C11_SCENARIO");
-    std::ifstream in(path ? path : "");
-    std::vector<std::vector<std::string>> lines; std::string line;
-    while (std::getline(in, line)) { auto w = vh::words(line); if (!w.empty() && w[0] != "case") lines.push_back(w); }
-    if (lines.empty() || lines.back()[0] != "main" || lines.back().size() != 4) { g_bad = true; return; }
-    uint64_t root = std::stoull(lines.back()[3]);
     std::map<uint64_t, Module*> mods; std::map<uint64_t, bool> owned;
-    for (auto &w : lines) {
+    std::map<uint64_t, std::pair<bool, bool>> flags;
+    for (auto &w : g_tree) if (w[0] == "set" && w.size() == 5) flags[std::stoull(w[1])] = {w[3] == "1", w[4] == "1"};
+    for (auto &w : g_tree) {
         if (w[0] == "new" && w.size() == 6) {
             uint64_t id = std::stoull(w[1]);
-            if (id == root) { mods[id] = &apps; owned[id] = true; }   // the Apps root is Main()'s own Module("")
-            else { mods[id] = new Probe(id, w[2] == "1", w[4] == "1", w[5] == "1", ctx); owned[id] = false; }
+            bool i = w[4] == "1", s = w[5] == "1";
+            if (flags.count(id)) { i = flags[id].first; s = flags[id].second; }
+            if (id == g_root) { mods[id] = &apps; owned[id] = true; }   // the Apps root is the code's own Module("")
+            else { mods[id] = new Probe(id, w[2] == "1", i, s, ctx); owned[id] = false; }
         } else if (w[0] == "add" && w.size() == 4) {
             uint64_t p = std::stoull(w[1]), c = std::stoull(w[2]);
-            if (!mods.count(p) || !mods.count(c) || c == root) { g_bad = true; continue; }
+            if (!mods.count(p) || !mods.count(c) || c == g_root) { g_bad = true; continue; }
             if (mods[p]->add(mods[c], w[3] == "1")) owned[c] = true; else g_bad = true;
         }
     }
     for (auto &kv : owned) if (!kv.second) g_bad = true;             // every module must hang below the Apps root
-    // when (if) the loop runs — i.e. after apps.start() succeeded — ask Main() to stop
-    // (a loop that never runs still drains its queue at shutdown: do nothing then)
-    // only while RunInFrontend() has its stop-signal handler installed
+    // frontend: when (if) the loop runs — i.e. after apps.start() succeeded — ask Main() to stop, but only while
+    // RunInFrontend() has its stop-signal handler installed (a loop that never runs still drains its queue at
+    // shutdown: do nothing then).  In the backend no handler is ever installed for SIGTERM: nothing happens.
     ctx.loop()->runInLoop([] {
         struct sigaction sa; if (sigaction(SIGTERM, nullptr, &sa) == 0 && sa.sa_handler != SIG_DFL && sa.sa_handler != SIG_IGN) raise(SIGTERM);
     });
@@ -63,20 +116,65 @@ std::string GetAppBuildTime() { return "-"; }
 void GetAppVersion(int &major, int &minor, int &rev, int &build) { major = minor = rev = build = 0; }
 }}
 
+namespace {
+bool is_bool(const std::string &w) { return w == "0" || w == "1"; }
+bool is_id(const std::string &w) { uint64_t v; return w.size() <= 4 && vh::to_u64(w, v) && v < 1000; }
+
+std::vector<std::string> make_args(const char *argv0, bool args_ok, bool pid_ok, bool ctx_init) {
+    std::vector<std::string> a = {argv0, "-s", "exit_wait_sec=0", "-s", "log.stdout.enable=false"};
+    if (!args_ok) a.push_back("-n");
+    if (!pid_ok) { a.push_back("-s"); a.push_back("pid_file=\"/proc/C11-no-such-dir/x.pid\""); }
+    if (!ctx_init) { a.push_back("-s"); a.push_back("thread_pool.min=\"x\""); }   // ContextImp::initialize() fails
+    for (auto &x : g_extra_args) { a.push_back("-s"); a.push_back(x); }
+    return a;
+}
+}
+
 int main(int argc, char **argv) {
     (void)argc;
+    sigaction(SIGSEGV, nullptr, &g_base_segv);
     const char *path = getenv("C11_SCENARIO");
-    std::ifstream in(path ? path : ""); std::string line, last;
-    while (std::getline(in, line)) if (!vh::words(line).empty()) last = line;
-    auto w = vh::words(last);
-    if (w.size() != 4 || w[0] != "main") { std::cout << "bad-op\n"; return 0; }
-    std::vector<std::string> args = {argv[0], "-s", "exit_wait_sec=0", "-s", "log.stdout.enable=false"};
-    if (w[1] == "0") { args.push_back("-s"); args.push_back("thread_pool.min=\"x\""); }   // ContextImp::initialize() fails
-    if (w[2] == "0") { std::cout << "unsupported: ContextImp::start() cannot fail\n"; return 0; }
-    std::vector<char*> av; for (auto &a : args) av.push_back(&a[0]);
-    tbox::main::Main((int)av.size(), av.data());
-    if (g_bad) { std::cout << "bad-op\n"; return 0; }
-    std::string s; for (auto &e : g_tr) { if (!s.empty()) s += ","; s += e; }
-    std::cout << "P ret=1 tr=" << (s.empty() ? "-" : s) << " st=-\n";
+    std::ifstream in(path ? path : ""); std::string line;
+    std::vector<std::vector<std::string>> lines;
+    while (std::getline(in, line)) { auto w = vh::words(line); if (!w.empty() && w[0] != "case") lines.push_back(w); }
+    bool any = false;
+    for (auto &w : lines) {
+        const std::string &op = w[0];
+        if (op == "new" || op == "add" || op == "set") { g_tree.push_back(w); continue; }
+        if (op == "arg" && w.size() == 2) { g_extra_args.push_back(w[1]); continue; }
+        if (op == "raise" && w.size() == 3 && w[1].size() == 1 && std::string("istc").find(w[1][0]) != std::string::npos && is_id(w[2])) {
+            g_raise_hook = (int)std::string("istc").find(w[1][0]); g_raise_id = std::stoull(w[2]); g_raised = false; continue;
+        }
+        if (op == "main" && w.size() == 4 && is_bool(w[1]) && is_bool(w[2]) && is_id(w[3]) && &w == &lines.back()) {
+            g_root = std::stoull(w[3]); g_ctx_start_fail = (w[2] == "0");
+            auto args = make_args(argv[0], true, true, w[1] == "1");
+            std::vector<char*> av; for (auto &a : args) av.push_back(&a[0]);
+            tbox::main::Main((int)av.size(), av.data());
+            if (g_bad) { out("bad-op\n"); return 0; }
+            // OS-level state Main() must leave as it found it: stop signals unblocked and at their default disposition,
+            // error-signal handlers removed (M: a rewrite may legitimately leave something else)
+            sigset_t cur; sigprocmask(SIG_SETMASK, nullptr, &cur);
+            struct sigaction sa; sigaction(SIGTERM, nullptr, &sa);
+            out("P ret=1 tr=" + take_trace() + " st=-\nM after-main blocked=" + (sigismember(&cur, SIGTERM) || sigismember(&cur, SIGINT) ? "1" : "0") +
+                " term=" + (sa.sa_handler == SIG_DFL ? "dfl" : "other") + " errsig=" + (errsig_installed() ? "1" : "0") + "\n");
+            any = true; continue;
+        }
+        if (op == "bstart" && w.size() == 6 && is_bool(w[1]) && is_bool(w[2]) && is_bool(w[3]) && is_bool(w[4]) && is_id(w[5])) {
+            g_root = std::stoull(w[5]); g_ctx_start_fail = (w[4] == "0");
+            auto args = make_args(argv[0], w[1] == "1", w[2] == "1", w[3] == "1");
+            std::vector<char*> av; for (auto &a : args) av.push_back(&a[0]);
+            bool r = tbox::main::Start((int)av.size(), av.data());
+            if (g_bad) { out("bad-op\n"); return 0; }
+            out(std::string("P bret=") + (r ? "1" : "0") + " tr=" + take_trace() + "\nM runtime=" + (errsig_installed() ? "1" : "0") + "\n");
+            any = true; continue;
+        }
+        if (op == "bstop" && w.size() == 2 && is_id(w[1])) {
+            tbox::main::Stop();
+            out("P bret=1 tr=" + take_trace() + "\nM runtime=" + (errsig_installed() ? "1" : "0") + "\n");
+            any = true; continue;
+        }
+        out("bad-op\n"); return 0;
+    }
+    if (!any) out("bad-op\n");
     return 0;
 }
